@@ -636,3 +636,213 @@ def P26(m, R):
                         'index %s was found by searching %s but is used to %s %s: a position in one list says nothing about another' % (k, src, how, used_on), construct=cons)
     if n_sites == 0:
         raise AnalysisError('no index uses found (rule would pass vacuously)')
+
+
+# ----------------------------------------------------------------------------------------------------------------------
+@rule('P12', 'slice-seeding: exhaustive scenario simulation of __getitem__ -- key 0 is seeded exactly once, from the settings active at the '
+             'start of the slice; interior points are copied under idx - start; the slice is closed', floor=5)
+def P12(m, R):
+    import itertools
+    ro = m.roles
+    f = m.fn('AnsiString.__getitem__')
+    loop = next((n for n in f.body if isinstance(n, ast.For) and call_name(n.iter) == ro.ITERATOR), None)
+    if loop is None:
+        raise AnalysisError('anchor vanished: scan loop of __getitem__')
+    idx, point, active = [norm(x) for x in loop.target.elts]
+    pre = f.body[:f.body.index(loop)]
+    post = f.body[f.body.index(loop) + 1:]
+    # names of start / end locals: the ones compared with idx in the loop
+    cmpn = set()
+    for n in ast.walk(loop):
+        if isinstance(n, ast.Compare) and norm(n.left) == idx and isinstance(n.comparators[0], ast.Name):
+            cmpn.add(n.comparators[0].id)
+    new_s = None
+    for n in pre:
+        if isinstance(n, ast.Assign) and call_name(n.value) == 'AnsiString' and isinstance(n.targets[0], ast.Name):
+            new_s = n.targets[0].id
+    if len(cmpn) != 2 or new_s is None:
+        R.undecided(f, loop, 'start / end locals not recognised (%s)' % sorted(cmpn), construct='slice scenario')
+        return
+    # which is start: the one subtracted in the copy key
+    st = None
+    for n in ast.walk(loop):
+        if isinstance(n, ast.Subscript) and isinstance(n.slice, ast.BinOp) and isinstance(n.slice.op, ast.Sub) and norm(n.slice.left) == idx:
+            st = norm(n.slice.right)
+    if st not in cmpn:
+        R.undecided(f, loop, 'copy key idx - start not found', construct='slice scenario')
+        return
+    en = next(iter(cmpn - {st}))
+    tblnew = '%s.%s' % (new_s, ro.TABLE)
+    # flag / snapshot variables: locals initialised before the loop with None / False
+    state_vars = {}
+    for n in pre:
+        if isinstance(n, ast.Assign) and isinstance(n.targets[0], ast.Name) and isinstance(n.value, ast.Constant) and n.value.value in (None, False):
+            state_vars[n.targets[0].id] = n.value.value
+    REG = {'<st': 0, '=st': 1, 'in': 2, '=en': 3, '>en': 4}
+    seqs = []
+    names = list(REG)
+    for L in range(0, 4):
+        for combo in itertools.product(names, repeat=L):
+            ranks = [REG[c] for c in combo]
+            if ranks != sorted(ranks):
+                continue
+            if combo.count('=st') > 1 or combo.count('=en') > 1:
+                continue
+            seqs.append(combo)
+    problems = {}
+    n_scen = 0
+
+    def add(kind, msg, scen):
+        problems.setdefault(kind, []).append((msg, scen))
+    for combo in seqs:
+        for truth in itertools.product((True, False), repeat=2 * len(combo)):
+            n_scen += 1
+            state = dict(state_vars)          # name -> None/False/True/('snap', iter, truthy)
+            events = []
+            snap_iter = {'i': None}
+            cur = {'it': -1, 'active': False, 'stop': False}
+
+            def truthy(v):
+                if isinstance(v, tuple):
+                    return v[2]
+                return bool(v)
+            facts = {}
+
+            def val(atom):
+                t = norm(atom)
+                if t in facts:
+                    return facts[t]
+                if isinstance(atom, ast.Name) and atom.id in state:
+                    return truthy(state[atom.id])
+                if t == active:
+                    return cur['active']
+                if t == '%s.%s' % (point, ro.STOP):
+                    return cur['stop']
+                if t.startswith('%s > len(' % idx):
+                    return cur['reg'] == '>en'
+                if ' not in %s' % tblnew in t:
+                    return True
+                return None
+
+            def visit(s):
+                if isinstance(s, ast.Assign) and isinstance(s.targets[0], ast.Name) and s.targets[0].id in state:
+                    v = s.value
+                    if isinstance(v, ast.Constant):
+                        state[s.targets[0].id] = v.value
+                    elif norm(v) in ('list(%s)' % active, '%s.copy()' % active, '%s[:]' % active, active):
+                        state[s.targets[0].id] = ('snap', cur['it'], cur['active'])
+                    else:
+                        state[s.targets[0].id] = ('?', cur['it'], True)
+                    return
+                if isinstance(s, ast.Assign) and isinstance(s.targets[0], ast.Subscript) and norm(s.targets[0].value) == tblnew and call_name(s.value) == ro.POINT:
+                    key = norm(s.targets[0].slice)
+                    pt = m.fn(ro.POINT + '.__init__')
+                    b, _ = bind_call(s.value, pt)
+                    pps = pt.own_params()
+                    a0 = b.get(pps[0])
+                    a1 = b.get(pps[1])
+
+                    def src(e):
+                        if e is None:
+                            return None
+                        t = norm(e)
+                        mm = re.match(r'^list\((.+)\)$', t)
+                        t = mm.group(1) if mm else t
+                        if t == active:
+                            return ('active', cur['it'])
+                        if t in state and isinstance(state[t], tuple):
+                            return ('snap', state[t][1])
+                        if t == '%s.%s' % (point, ro.START):
+                            return ('START', cur['it'])
+                        if t == '%s.%s' % (point, ro.STOP):
+                            return ('STOP', cur['it'])
+                        return ('?', t)
+                    events.append(('store', key, src(a0), src(a1), cur['it']))
+                    return
+                if isinstance(s, ast.Expr) and call_name(s.value) == 'extend' and norm(s.value.func.value).startswith(tblnew):
+                    events.append(('close', cur['it']))
+            ended = None
+            try:
+                for i, reg in enumerate(combo):
+                    cur.update(it=i, reg=reg, active=truth[2 * i], stop=truth[2 * i + 1])
+                    r = REG[reg]
+                    facts.clear()
+                    order = {idx: r, st: 1, en: 3}
+                    ov = order_valuation(order)
+                    out = run_block(loop.body, merge_valuations(lambda a: ov(a), val), visit)
+                    if out == 'break':
+                        ended = i
+                        break
+                    if out == 'return':
+                        raise Undecided('return inside the scan')
+                cur.update(it=len(combo), reg='after', active=False, stop=False)
+                out = run_block([s for s in post], val, visit)
+            except Undecided as e:
+                R.undecided(f, loop, 'scenario %s: %s' % (combo, e), construct='slice scenario')
+                return
+            # ---- expectations
+            processed = [i for i, reg in enumerate(combo) if reg in ('<st', '=st', 'in') and (ended is None or i < ended)]
+            first_ge = next((i for i, reg in enumerate(combo) if reg != '<st'), None)
+            has_eq = '=st' in combo
+            if has_eq:
+                i_eq = combo.index('=st')
+                want_seed = truth[2 * i_eq]
+                want_src = ('active', i_eq)
+            else:
+                lt = [i for i, reg in enumerate(combo) if reg == '<st']
+                if lt:
+                    want_seed = truth[2 * lt[-1]]
+                    want_src = ('snap', lt[-1])
+                else:
+                    want_seed = False
+                    want_src = None
+            seeds = [e for e in events if e[0] == 'store' and e[1] == '0']
+            scen = '%s active=%s' % ('/'.join(combo) or 'no points', [truth[2 * i] for i in range(len(combo))])
+            if want_seed and not seeds:
+                add('seed-missing', 'settings active at the start of the slice are not seeded at key 0', scen)
+            if not want_seed and seeds:
+                add('seed-spurious', 'key 0 is seeded although nothing is active at the start of the slice', scen)
+            if len(seeds) > 1:
+                add('seed-twice', 'key 0 is seeded %d times (the later one overwrites the first with settings of a later position)' % len(seeds), scen)
+            if want_seed and seeds and seeds[-1][2] != want_src:
+                add('seed-source', 'key 0 is seeded from %s, expected %s (the active list as of the last point not beyond the start)' % (seeds[-1][2], want_src), scen)
+            # interior copies
+            for i, reg in enumerate(combo):
+                if ended is not None and i > ended:
+                    continue
+                stores = [e for e in events if e[0] == 'store' and e[4] == i and e[1] != '0']
+                if reg == 'in':
+                    ok = len(stores) == 1 and stores[0][1] in ('%s - %s' % (idx, st),) and stores[0][2] == ('START', i) and stores[0][3] == ('STOP', i)
+                    if not ok:
+                        add('interior', 'an interior point is stored as %s, expected key idx - start with its own START and STOP lists' % (stores,), scen)
+                elif reg == '=en':
+                    want = truth[2 * i + 1]
+                    ok = (len(stores) == 1 and stores[0][1] == '%s - %s' % (idx, st) and stores[0][2] in (None,) and stores[0][3] == ('STOP', i)) if want else not stores
+                    if not ok:
+                        add('end-point', 'the point at the end is stored as %s (stop markers present: %s)' % (stores, want), scen)
+                elif reg in ('<st', '>en') and stores:
+                    add('outside', 'a point outside the slice is copied (%s)' % (stores,), scen)
+            # closing: iff the active list as of the last processed point is non-empty
+            final_active = truth[2 * processed[-1]] if processed else False
+            closes = [e for e in events if e[0] == 'close']
+            if final_active and not closes:
+                add('close-missing', 'settings still active at the end of the slice are not closed', scen)
+            if closes and not final_active:
+                add('close-spurious', 'the closing block runs although nothing is active at the end', scen)
+    labels = {
+        'seed': ('seed-missing', 'seed-spurious', 'seed-twice'), 'seed source': ('seed-source',), 'interior copies': ('interior', 'outside'),
+        'end point': ('end-point',), 'closing': ('close-missing', 'close-spurious'),
+    }
+    for lab, kinds in labels.items():
+        found = [x for k in kinds for x in problems.get(k, [])]
+        if found:
+            msg, scen = found[0]
+            R.viol(f, loop, '%s [scenario: points %s] (%d of %d scenarios)' % (msg, scen, len(found), n_scen), construct='slice ' + lab)
+        else:
+            R.ok(f, loop, '%s correct in all %d scenarios (<=3 points x regions <start,=start,inside,=end,>end x list emptiness)' % (lab, n_scen), construct='slice ' + lab)
+    # (f) the only return that bypasses the closing block is the empty-slice one
+    rets = [n for n in f.walk() if isinstance(n, ast.Return)]
+    early = [r for r in rets if r is not f.body[-1]]
+    ok = len(early) == 1 and any(isinstance(p, ast.If) and norm(p.test) in ('not %s.%s' % (new_s, ro.TEXT), 'len(%s.%s) == 0' % (new_s, ro.TEXT)) for p in _parents(early[0]))
+    R.check(ok and isinstance(f.body[-1], ast.Return), f, early[0] if early else f.node, 'only an empty slice returns before the closing block',
+            '%d early returns' % len(early), construct='slice early return')
